@@ -17,11 +17,11 @@ RULE = (
     "triples / sub-sampled, Random, Size; n_chunks 1-5; batches of 0-3 plates) -> select_next_plate (with/without the "
     "k-per-sample policy), also through the four CLI mains on files (2 pairs quick, 96 thorough); every artefact compared byte-wise; a "
     "wrapper on add_observations compares the sampler's training arrays with the documented row set and transform; "
-    "refusal cases (masked rows, negative, NaN). A case is one pair, one training-set check or one refusal; distinct = "
+    "refusal cases (masked rows, negative, NaN); two-batch histories (add, step, add) compared with a fresh model holding the same rows, sampler state and generator. A case is one pair, one training-set check or one refusal; distinct = "
     "(screen hash, replacement kind, model, scorer, n_chunks, batch); non-trivial = >=1 masked row and >=1 observed row"
 )
 ASSUMPTIONS = ["observed values exactly 0 or 1 are outside the interaction model's transform (logit gives +-inf) and are not generated for it", "both members of a pair use the same seed and the same global numpy seed so that only masked values differ"]
-REQUIRED = {"cli_pairs": {"quick": 1, "thorough": 40}, "pairs_compared": {"quick": 250, "thorough": 3000}, "artefacts_compared": {"quick": 1200, "thorough": 15000}, "training_set_checks": {"quick": 250, "thorough": 3000}, "refusals_checked": {"quick": 2000, "thorough": 25000}}
+REQUIRED = {"two_batch_histories": {"quick": 100, "thorough": 1200}, "cli_pairs": {"quick": 1, "thorough": 40}, "pairs_compared": {"quick": 250, "thorough": 3000}, "artefacts_compared": {"quick": 1200, "thorough": 15000}, "training_set_checks": {"quick": 250, "thorough": 3000}, "refusals_checked": {"quick": 2000, "thorough": 25000}}
 N_PAIRS = {"quick": 640, "thorough": 6400}
 
 
@@ -259,6 +259,12 @@ def run_shard(rec, tier, seed, shard, nshards):
         if pi < 2 and shard == 0:
             rec.sample({"model": mname, "replacement": kind, "rows": int(A.size), "masked_rows": w["masked_rows"], "scorer": cfg["scorer"], "n_chunks": cfg["n_chunks"], "batch": cfg["batch"], "selected": artA["selected"]})
 
+        # ---------------- observations added in two batches with sampler steps in between: the model must then be
+        # trained on ALL of them - compared with a fresh model that was handed both batches before any step and was
+        # given the same numeric sampler state and the same generator
+        if pi % 2 == 0:
+            two_batches(rec, rng, MODELS[mname], mname, A, w)
+
         # ---------------- refusals
         for m2 in MODELS:
             def fresh():
@@ -294,6 +300,65 @@ def run_shard(rec, tier, seed, shard, nshards):
 
     if tier == "thorough" or shard == 0:
         cli_pairs(rec, rng, shard, n=6 if tier == "thorough" else 2)
+
+
+def numeric_state(obj):
+    out = {}
+    for k, v in vars(obj).items():
+        if isinstance(v, np.ndarray):
+            out[k] = v.copy()
+        elif isinstance(v, (int, float, np.floating, np.integer)) and not isinstance(v, bool):
+            out[k] = v
+    return out
+
+
+def two_batches(rec, rng, cls, mname, screen, w):
+    from batchie.data import ExperimentSpace
+
+    sub = screen.subset_observed()
+    if sub is None or sub.size < 2:
+        return
+    first = rng.random(sub.size) < 0.5
+    if mname == "SparseDrugComboInteraction":
+        # its single-effect table is built per batch: keep every single-agent row in the first batch
+        tids = np.asarray(sub.treatment_ids)
+        first = first | (tids == -1).any(axis=1)
+    if first.all() or not first.any():
+        return
+    b1, b2 = sub.subset(first), sub.subset(~first)
+    sp = ExperimentSpace.from_screen(screen)
+    D = int(rng.integers(1, 3))
+    try:
+        a = cls(experiment_space=sp, n_embedding_dimensions=D)
+        a.set_rng(np.random.default_rng(5))
+        a.add_observations(b1)
+        for _ in range(int(rng.integers(1, 4))):
+            a.step()
+        a.add_observations(b2)
+        b = cls(experiment_space=sp, n_embedding_dimensions=D)
+        b.add_observations(b1)
+        b.add_observations(b2)
+    except Exception as e:
+        rec.did_not_return("two-batches-" + mname, e)
+        return
+    for k, v in numeric_state(a.wrapped_model).items():
+        setattr(b.wrapped_model, k, v.copy() if isinstance(v, np.ndarray) else v)
+    s0 = int(rng.integers(0, 2**31))
+    a.set_rng(np.random.default_rng(s0))
+    b.set_rng(np.random.default_rng(s0))
+    rec.case(("two-batches", mname, kit.array_hash(screen.observations), int(first.sum())), nontrivial=True)
+    rec.count("two_batch_histories")
+    rec.count("oracle_evals")
+    try:
+        for _ in range(2):
+            a.step()
+            b.step()
+        ta, tb = a.get_model_state(), b.get_model_state()
+    except Exception as e:
+        rec.violation("C04/%s/step-after-second-batch-raises" % mname, "stepping after a second add_observations raised %r" % (e,), w)
+        return
+    same = all((kit.bytes_equal(np.asarray(va), np.asarray(tb.private_parameters_dict()[k])) if isinstance(va, np.ndarray) else float(va) == float(tb.private_parameters_dict()[k])) for k, va in ta.private_parameters_dict().items() if not isinstance(va, dict))
+    rec.check(same and int(a.n_obs()) == int(b.n_obs()), "C04/%s/second-batch-not-used-like-the-first" % mname, "%s: a model that received its observations in two batches (steps in between) continues differently from a fresh model holding the same %d observations, the same sampler state and the same generator" % (mname, int(b.n_obs())), dict(w, first_batch_rows=int(first.sum()), second_batch_rows=int((~first).sum())))
 
 
 def cli_pairs(rec, rng, shard, n=6):
